@@ -2,6 +2,7 @@ package main
 
 import (
 	"fmt"
+	"go/ast"
 	"go/constant"
 	"go/token"
 	"go/types"
@@ -1184,15 +1185,39 @@ func callName(c *ssa.CallCommon) string {
 }
 
 // checkAnchors evaluates `at call f#k assert` clauses placed before this call.
+// astCallName names a call through a function value by the identifier written at
+// the call site (cb(x), onEvict(i), c.onExit(v)).
+func (vc *VC) astCallName(fr *Frame, call *ssa.Call) string {
+	if n := callName(call.Common()); n != "" {
+		return n
+	}
+	if fr.fi == nil || fr.fi.Decl == nil {
+		return ""
+	}
+	name := ""
+	ast.Inspect(fr.fi.Decl, func(n ast.Node) bool {
+		if ce, ok := n.(*ast.CallExpr); ok && ce.Lparen == call.Pos() {
+			switch f := ce.Fun.(type) {
+			case *ast.Ident:
+				name = f.Name
+			case *ast.SelectorExpr:
+				name = f.Sel.Name
+			}
+		}
+		return name == ""
+	})
+	return name
+}
+
 func (vc *VC) checkAnchors(fr *Frame, b *ssa.BasicBlock, call *ssa.Call) {
-	name := callName(call.Common())
+	name := vc.astCallName(fr, call)
 	if name == "" {
 		return
 	}
 	var sites []*ssa.Call
 	for _, blk := range fr.fn.Blocks {
 		for _, ins := range blk.Instrs {
-			if c, ok := ins.(*ssa.Call); ok && callName(c.Common()) == name {
+			if c, ok := ins.(*ssa.Call); ok && vc.astCallName(fr, c) == name {
 				sites = append(sites, c)
 			}
 		}
